@@ -232,6 +232,21 @@ def run(ctx) -> None:
             ctx.judged(sig=("standard", addr["form"], addr["native"], bool(seq), "log" in line), nontrivial=True)
             done += 1
             continue
+        if platform == "ios" and rng.random() < 0.03:
+            # two entries in a row whose neq lists share length, lowest and highest port and differ in the middle
+            lo = rng.randint(1, 60000)
+            hi = lo + rng.randint(4, 400)
+            mids = rng.sample(range(lo + 1, hi), 2)
+            proto = rng.choice(["tcp", "udp"])
+            for mid in mids:
+                side = rng.choice(["any neq {} any", "any any neq {}"]).format(f"{lo} {mid} {hi}")
+                case = {"text": f"permit {proto} {side}", "platform": platform, "version": version, "port_nr": rng.random() < 0.4,
+                        "protocol_nr": rng.random() < 0.4}
+                execute(ctx, case)
+                ctx.judged(sig=("sibling-neq", proto), nontrivial=True)
+                done += 1
+            ctx.count("sibling_neq_entries")
+            continue
         if platform == "ios" and rng.random() < 0.06:
             # lists of service *names* in any order on either side, followed by option tokens
             proto = rng.choice(["tcp", "udp"])
